@@ -20,8 +20,8 @@ CLAIMS = {
  "C06": dict(design="§2 C06", technique="E-EFF freshness of constructors, typed-AST composite-literal completeness, E-PROVE packed-triangle discipline over all generators/transformations/decoders, E-EFF ownership (OWNER) and statelessness of views (VIEW), use-site rule for adjacency bytes (EDGEBYTE), edge/degree pairing (DEGSYNC), E-PROVE range of hand-filled counts (COUNTS), three-valued evaluation of IsEdge on the diagonal (IRREFLEXIVE)",
    text="Decides: NewDense/NewSparse keep no caller memory (the aliasing clause); no DenseGraph/SparseGraph literal with adjacency leaves out its counts; every hand-written index into packed-triangle storage in generators, transformations, decoders and the search is a lower-triangle cell for all accepted parameter values (closed form with 0 <= I < J proved, running index, or sweep); only SparseGraph's own edit methods write an existing SparseGraph; the live views keep no state; no transformation uses the numeric value of an input adjacency byte; an edge recorded at cell (I,J) is counted into the returned degree sequence at exactly I and J; every SparseGraph row owns its backing array; hand-filled NumberOfEdges is >= 0 and hand-filled degrees lie in [0, n-1] for every accepted argument; no IsEdge implementation can answer true for i == j. Does not decide that each family has exactly its defining edges, nor full agreement of hand-filled counts with adjacency.",
    note="Data-derived operands (Pruefer codes, Multicode bytes, part sizes) are recorded as preconditions; constructor classification is informational."),
- "C07": dict(design="§2 C07", technique="constant/shape extraction from SSA of the four codecs compared against the format definition (header stores, header sums, thresholds, markers, bit-packing roles, padding threshold); edge/degree pairing in the Multicode decoder (DEGSYNC)",
-   text="Decides that the four hand-written copies of the graph6/sparse6 size header agree with the published format (thresholds 62/258047/2^36-1, marker bytes, sextet shifts, mask and offset, header lengths, data offsets) and that the bit-packing constants (6 bits per byte, msb first, offset 63, range [63,126] checked before decoding, k = bits(n-1)) are the format's in every codec - including the long-header branches no test executes; no codec uses the numeric value of an adjacency byte; sparse6's 0-bit padding exception applies from exactly k+1 padding bits; the optional header is removed as a prefix, never as a character set; the Multicode decoder counts each edge at its own two end points. Does not decide round-trip equality.",
+ "C07": dict(design="§2 C07", technique="constant/shape extraction from SSA of the four codecs compared against the format definition (header stores, header sums, thresholds, markers, bit-packing roles, padding threshold); edge/degree pairing in the Multicode decoder (DEGSYNC); E-PROVE no-wrap obligation on loop-carried unsigned counters (UWRAP)",
+   text="Decides that the four hand-written copies of the graph6/sparse6 size header agree with the published format (thresholds 62/258047/2^36-1, marker bytes, sextet shifts, mask and offset, header lengths, data offsets) and that the bit-packing constants (6 bits per byte, msb first, offset 63, range [63,126] checked before decoding, k = bits(n-1)) are the format's in every codec - including the long-header branches no test executes; no codec uses the numeric value of an adjacency byte; sparse6's 0-bit padding exception applies from exactly k+1 padding bits; the optional header is removed as a prefix, never as a character set; the Multicode decoder counts each edge at its own two end points; no loop-carried unsigned counter of a codec can wrap below zero. Does not decide round-trip equality.",
    note="Format constants transcribed from formats.txt; unrecognised shapes are 'undecided' and fail."),
  "C08": dict(design="§2 C08", technique="goal-directed inductive bounds prover on go/ssa (E-PROVE): index/slice/make/divisor/shift obligations, ranking functions for loops, callee panic preconditions refuted at call sites",
    text="Decides, for every input string, that Graph6Decode and Sparse6Decode themselves never index out of range, never hit an explicit or callee panic, and terminate: every bounds obligation is discharged by the prover from dominating guards (polynomial normal form, division facts, phi-induction), every loop has a ranking function, every callee's explicit panic is refuted at the call site or its stated range contract is proved. Does not decide which malformed strings are rejected, nor the re-encode/decode clause.",
